@@ -313,3 +313,31 @@ func VerifH_C13_StableLong() {
 		c13CheckOrder(ids, items, []c13Term{{"k", desc}}, "long")
 	}
 }
+
+// VerifH_C13_SortFuncLong: $sort(a, f) stays stable beyond 12 items (where the library's unstable
+// sort stops being an insertion sort): N items with two-valued keys.
+func VerifH_C13_SortFuncLong() {
+	n := verifParam("N", 14)
+	items := make([]c13Item, n)
+	arr := make([]interface{}, n)
+	ones := 0
+	for i := 0; i < n; i++ {
+		k := 1.0
+		if ones < verifParam("ZEROS", 2) && verifBool() {
+			k = 0
+			ones++
+		}
+		items[i] = c13Item{hasK: true, k: k}
+		arr[i] = map[string]interface{}{"id": float64(i), "k": k}
+	}
+	got := hEval("$sort(items, function($x, $y) { $x.k > $y.k }).id", map[string]interface{}{"items": arr})
+	verifAssert(got.kind == oValue, "sortfn-long-evaluates")
+	if got.kind != oValue {
+		return
+	}
+	ids, ok := c13Ids(got.val, n)
+	verifAssert(ok, "sortfn-long-shape")
+	if ok {
+		c13CheckOrder(ids, items, []c13Term{{"k", false}}, "sortfn-long")
+	}
+}
